@@ -262,6 +262,11 @@ func checkC17(c *Ctx) {
 			f := f
 			facts = append(facts, &fact{id: "eq-" + f, what: "field " + f + " of both GUIDs is equal",
 				direct: func(c *Ctx, fn *ssa.Function, ce ir.CondEdge) bool {
+					// the positive outcome of a library helper that compares two GUIDs handed to
+					// it: what every true result of the helper establishes, it establishes here
+					if call, isCall := ce.Cond.(*ssa.Call); isCall && ce.Truth {
+						return c.guidHelperEstablishes(call, "eq-"+f)
+					}
 					cmp, ok := ce.Cond.(*ssa.BinOp)
 					if !ok || (cmp.Op != token.EQL && cmp.Op != token.NEQ) || ce.Truth != (cmp.Op == token.EQL) {
 						return false
@@ -280,13 +285,24 @@ func checkC17(c *Ctx) {
 		// a byte-by-byte loop over Data4 is not followed by the path engine (the loop
 		// exit is reachable in the graph without an iteration): that field is not decided
 		elementwise := false
-		instrsOf(fn, func(i ssa.Instruction) {
-			if ia, ok := i.(*ssa.IndexAddr); ok && ir.FieldID(ia.X) == utilPkg+".EFIGUID.Data4" {
-				if _, isK := ir.ConstInt(ia.Index); !isK && inLoop(fn, ia.Block()) {
-					elementwise = true
+		inView := map[*ssa.Function]bool{fn: true}
+		for _, fr := range c.deepViewOf(fn, 2).framesInOrder() {
+			inView[fr.fn] = true // the comparison may sit in a helper
+		}
+		for g := range inView {
+			g := g
+			instrsOf(g, func(i ssa.Instruction) {
+				if ia, ok := i.(*ssa.IndexAddr); ok && ir.FieldID(ia.X) == utilPkg+".EFIGUID.Data4" {
+					if _, isK := ir.ConstInt(ia.Index); !isK && inLoop(g, ia.Block()) {
+						elementwise = true
+					}
 				}
-			}
-		})
+			})
+		}
+		guidCmpFacts = map[string]*fact{}
+		for _, f := range facts {
+			guidCmpFacts[f.id] = f
+		}
 		if elementwise {
 			facts = facts[:3]
 			c.R.Infof("G6.cmp", name(fn), "eq-Data4", c.Pos(fn.Pos()), "not decided for this shape: Data4 is compared element by element in a loop")
@@ -333,48 +349,118 @@ func checkC17(c *Ctx) {
 	})
 }
 
-// guidCmp: CmpEFIGUID is a conjunction; go/ssa lowers a && b && c && d to a phi.
+// guidCmp: CmpEFIGUID is a conjunction; go/ssa lowers a && b && c && d to a phi
+// (a disjunction of inequalities under a negation likewise).
 // The accepting outcome (true) is reached only through all four equalities.
 func (c *Ctx) guidCmp(e *acceptEngine, fn *ssa.Function, facts []*fact) {
-	// find the return's value: phi of false constants and the last comparison
-	rets := ir.Returns(fn)
-	if len(rets) != 1 {
+	if _, _, decided := c.guidEqOnTrue(fn, nil); !decided {
 		e.Require("G6.cmp", fn, facts)
 		return
 	}
-	res := rets[0].Results[0]
-	phi, isPhi := res.(*ssa.Phi)
-	if !isPhi {
-		e.Require("G6.cmp", fn, facts)
-		return
-	}
-	// every incoming edge that may carry true must be behind all other equalities
 	for _, f := range facts {
-		ok, det := true, ""
-		for k, ev := range phi.Edges {
-			if kc, isK := ev.(*ssa.Const); isK && kc.Value != nil && !constant.BoolVal(kc.Value) {
-				continue
-			}
-			pred := phi.Block().Preds[k]
-			// the edge value itself may be the comparison for f
-			if cmp, isB := ev.(*ssa.BinOp); isB {
-				if f.direct(c, fn, ir.CondEdge{Cond: cmp, Truth: true}) {
-					continue
-				}
-			}
-			cut := map[ir.Edge]bool{}
-			for _, ce := range ir.CondEdges(fn) {
-				if f.direct(c, fn, ce) {
-					cut[ce.Edge] = true
-				}
-			}
-			seen, _ := ir.Reach(fn, fn.Blocks[0], cut)
-			if seen[pred.Index] {
-				ok, det = false, "the result can be true without comparing this field"
-			}
+		guidCmpUndecided = ""
+		ok, det, _ := c.guidEqOnTrue(fn, f)
+		if !ok && guidCmpUndecided != "" {
+			c.R.Infof("G6.cmp", name(fn), f.id, c.Pos(fn.Pos()), "not decided for this shape: "+guidCmpUndecided)
+			continue
 		}
 		c.R.Check(ok, "G6.cmp", name(fn), f.id, c.Pos(fn.Pos()), "GUID equality is field-wise: "+f.what, det)
 	}
+}
+
+// the facts of G6.cmp by id (for helpers), the helpers under evaluation, and the
+// reason why a helper's outcome could not be evaluated
+var (
+	guidCmpFacts     map[string]*fact
+	guidCmpBusy      = map[*ssa.Function]bool{}
+	guidCmpUndecided string
+)
+
+// guidEqOnTrue: the one boolean result of fn is the outcome of a short-circuit
+// chain (a phi of constants and comparisons, possibly negated); it can be true
+// only if fact f holds. f == nil only asks whether the shape is one that is decided.
+func (c *Ctx) guidEqOnTrue(fn *ssa.Function, f *fact) (ok bool, det string, decided bool) {
+	rets := ir.Returns(fn)
+	if len(rets) != 1 || len(rets[0].Results) != 1 {
+		return false, "", false
+	}
+	res := rets[0].Results[0]
+	want := true
+	for {
+		u, isNot := res.(*ssa.UnOp)
+		if !isNot || u.Op != token.NOT {
+			break
+		}
+		res, want = u.X, !want
+	}
+	phi, isPhi := res.(*ssa.Phi)
+	if !isPhi {
+		return false, "", false
+	}
+	if f == nil {
+		return true, "", true
+	}
+	// every incoming edge that may carry the accepting value must be behind all other equalities
+	ok = true
+	for k, ev := range phi.Edges {
+		if kc, isK := ev.(*ssa.Const); isK && kc.Value != nil && constant.BoolVal(kc.Value) != want {
+			continue
+		}
+		pred := phi.Block().Preds[k]
+		// the edge value itself may be the comparison for f
+		switch ev.(type) {
+		case *ssa.BinOp, *ssa.Call:
+			if f.direct(c, fn, ir.CondEdge{Cond: ev, Truth: want}) {
+				continue
+			}
+		}
+		cut := map[ir.Edge]bool{}
+		for _, ce := range ir.CondEdges(fn) {
+			if f.direct(c, fn, ce) {
+				cut[ce.Edge] = true
+			}
+		}
+		seen, _ := ir.Reach(fn, fn.Blocks[0], cut)
+		if seen[pred.Index] {
+			ok, det = false, "the result can be true without comparing this field"
+		}
+	}
+	return ok, det, true
+}
+
+// guidHelperEstablishes: call is a call of a library function with one boolean
+// result that is handed two different GUIDs (values or pointers); its true
+// outcome establishes the fact with the given id.
+func (c *Ctx) guidHelperEstablishes(call *ssa.Call, factID string) bool {
+	callee := ir.Callee(call)
+	f := guidCmpFacts[factID]
+	if callee == nil || f == nil || callee.Blocks == nil || !c.P.InLib(callee) || guidCmpBusy[callee] {
+		return false
+	}
+	if res := callee.Signature.Results(); res.Len() != 1 || !isBoolType(res.At(0).Type()) {
+		return false
+	}
+	var guids []ssa.Value
+	for _, a := range ir.CallArgs(call) {
+		t := a.Type()
+		if p, isPtr := t.Underlying().(*types.Pointer); isPtr {
+			t = p.Elem()
+		}
+		if ir.NamedTypeID(t) == utilPkg+".EFIGUID" {
+			guids = append(guids, a)
+		}
+	}
+	if len(guids) != 2 || ir.AccessPath(guids[0]) == ir.AccessPath(guids[1]) {
+		return false
+	}
+	guidCmpBusy[callee] = true
+	defer delete(guidCmpBusy, callee)
+	ok, _, decided := c.guidEqOnTrue(callee, f)
+	if !decided {
+		guidCmpUndecided = "the comparison is made by the helper " + shortID(name(callee)) + ", whose result is not a single short-circuit chain"
+		return false
+	}
+	return ok
 }
 
 // ruleUTF16 (A-u): encoder and decoder go through the UTF-16LE transcoder, one
@@ -870,6 +956,19 @@ func checkC18(c *Ctx) {
 				}
 			}
 		})
+		if !ok {
+			// the result is put together in a helper, from a header structure that another
+			// helper filled: the same derivation, followed along the activations of the view
+			dv := c.deepViewOf(fn, 3)
+			dv.throughFields = true
+			for _, di := range dv.storesToField(dev + ".EFILoadOption.Description") {
+				sl := dv.sliceDeep(di.i.(*ssa.Store).Val, di.fr)
+				if len(ir.CallsIn(sl, utilPkg+".ParseUtf16Var")) > 0 && len(ir.CallsIn(sl, utilPkg+".ReadNullString")) > 0 {
+					ok = true
+				}
+			}
+			dv.throughFields = false
+		}
 		c.R.Check(ok, "G5.layout", name(fn), "description", c.Pos(fn.Pos()), "the description is the NUL-terminated UTF-16 string found by the 2-byte aligned scan", "Description does not derive from ParseUtf16Var(ReadNullString(f))")
 	}
 	if fn := c.Fn("G5.layout", "efi/device.ParseDevicePath"); fn != nil {
